@@ -154,7 +154,11 @@ pub fn panic_site(desc: &str) -> String {
 }
 
 pub fn is_harness_panic(desc: &str) -> bool {
-    desc.contains("harness:") || panic_site(desc).starts_with("harness/src/")
+    // the harness is compiled from its own directory: its panic locations are relative ("src/model.rs:85"),
+    // the library's are absolute paths.  The glue (shape.rs, zoo_*.rs) is where the library's inlined / track_caller
+    // panics (slice indexing, unwrap) are attributed, so it is not counted as harness code here
+    let site = panic_site(desc);
+    desc.contains("harness:") || site.starts_with("harness/src/") || (site.starts_with("src/") && !site.starts_with("src/shape.rs") && !site.starts_with("src/zoo_"))
 }
 
 #[derive(Clone, Debug)]
